@@ -51,10 +51,12 @@ Proof.
 Qed.
 
 (* ---------- the end of a publication ---------- *)
+(* a publication that has not opened a fragment (yet) has left the live playlist alone: it is the one the previous
+   publication finalised, if any *)
 Definition winvE (c : cfg) (st : phase) (w : world) : Prop :=
   match st with
   | Clean => True
-  | Alive _ => forall m, w_mux w = Some m -> m_opened m = false -> nclosed m = 0
+  | Alive _ => forall m, w_mux w = Some m -> m_opened m = false -> ended c (w_fs w)
   | Dirty => ended c (w_fs w)
   end.
 
@@ -66,22 +68,31 @@ Fixpoint final_world (c : cfg) (w : world) (evs : list event) : world :=
 Fixpoint final_phase (c : cfg) (st : phase) (evs : list event) : phase :=
   match evs with [] => st | e :: t => final_phase c (next_phase c st e) t end.
 
+Fixpoint final_n (c : cfg) (st : phase) (n : Z) (evs : list event) : Z :=
+  match evs with [] => n | e :: t => final_n c (next_phase c st e) (next_n c st n e) t end.
+
 Lemma final_world_fs c evs : forall w, w_fs (final_world c w evs) = apply_all (w_fs w) (run_from c w evs).
 Proof.
   induction evs as [|e t IH]; intros w; cbn [final_world run_from]; [reflexivity|].
   destruct (step c w e) as [m o]. rewrite IH. cbn [w_fs]. now rewrite apply_all_app.
 Qed.
 
-Lemma stepE_ok c st w m e mx o :
-  cfg_ok c -> winv c st w m -> winvE c st w -> wf_head c st e -> step c w e = (mx, o) ->
+Lemma start_mux_fs c s : apply_all s (snd (start_mux c s)) = s.
+Proof. unfold start_mux. destruct (fs_lookup PLive s); reflexivity. Qed.
+
+Lemma start_mux_closed c s : m_opened (fst (start_mux c s)) = false.
+Proof. unfold start_mux. destruct (fs_lookup PLive s) as [f|]; [|reflexivity]. cbn. destruct (next_seq _) as [[q n]|]; reflexivity. Qed.
+
+Lemma stepE_ok c st n w m e mx o :
+  cfg_ok c -> winv c st n w m -> winvE c st w -> wf_head c st n e -> step c w e = (mx, o) ->
   winvE c (next_phase c st e) (mkworld mx (apply_all (w_fs w) o)).
 Proof.
   intros Hc HW HE Hh E. destruct w as [wm s]. cbn [w_fs] in *.
   destruct st as [|r|].
-  - destruct HW as (Hm & Hs & ->). cbn in Hm, Hs. subst wm s.
+  - destruct HW as (Hm & Hs & -> & _). cbn in Hm, Hs. subst wm s.
     destruct e; cbn in E; injection E as <- <-; cbn [next_phase winvE]; auto.
-    intros m Hm _. cbn in Hm. injection Hm as <-. reflexivity.
-  - destruct HW as (Hm & HI & Hr). cbn in Hm, HI. subst wm. cbn [winvE w_mux] in HE.
+    intros m Hm _ f Hf. cbn in Hf. discriminate.
+  - destruct HW as (Hm & HI & Hr & _). cbn in Hm, HI. subst wm. cbn [winvE w_mux w_fs] in HE.
     specialize (HE m eq_refl).
     destruct e; cbn [step w_mux w_fs] in E; cbn [next_phase].
     + injection E as <- <-. cbn. intros m0 Hm0. injection Hm0 as <-. exact HE.
@@ -90,31 +101,32 @@ Proof.
       cbn. intros m0 Hm0 Ho0. injection Hm0 as <-.
       destruct (feed_opened c m s audio pts dts boundary now pk) as [H|[Ho H]]; rewrite E1 in H.
       * cbn in H. congruence.
-      * injection H as -> _. now apply HE.
+      * injection H as -> ->. now apply HE.
     + destruct (close_fragment c m s true) as [m1 o1] eqn:E1. injection E as <- <-.
-      cbn [winvE w_fs]. intros f Hf. destruct (m_opened m) eqn:Ho.
-      * destruct (close_ok c m s true m1 o1 HI Ho E1) as (_ & _ & _ & _ & _ & _ & _ & Hl).
+      cbn [winvE w_fs]. destruct (m_opened m) eqn:Ho.
+      * intros f Hf. destruct (close_ok c m s true m1 o1 HI Ho E1) as (_ & _ & _ & _ & _ & _ & _ & Hl).
         rewrite Hl in Hf. injection Hf as <-. exists (live_playlist c m1 true). split; reflexivity.
-      * unfold close_fragment in E1. rewrite Ho in E1. cbn in E1. injection E1 as <- <-. cbn in Hf.
-        destruct HI as [_ _ _ _ _ _ _ _ _ _ H11 _ _]. rewrite H11 in Hf by (now apply HE). discriminate.
+      * unfold close_fragment in E1. rewrite Ho in E1. cbn in E1. injection E1 as <- <-. cbn. now apply HE.
     + injection E as <- <-. cbn. intros m0 Hm0. injection Hm0 as <-. exact HE.
-  - destruct HW as (Hm & HI). cbn in Hm, HI. subst wm. cbn [winvE w_fs] in HE.
-    destruct e; cbn in E; try (injection E as <- <-); cbn [next_phase].
-    + destruct Hh.
-    + exact HE.
-    + exact HE.
-    + exact HE.
-    + destruct ((c_mode c =? 1) || (c_mode c =? 2)); cbn; [exact I|exact HE].
+  - destruct HW as (Hm & HI & _). cbn in Hm, HI. subst wm. cbn [winvE w_fs] in HE.
+    destruct e; cbn [step w_mux w_fs] in E; cbn [next_phase].
+    + destruct (start_mux c s) as [m1 o1] eqn:E1. injection E as <- <-.
+      pose proof (start_mux_fs c s) as Hs. rewrite E1 in Hs. cbn [snd] in Hs.
+      cbn [winvE w_mux w_fs]. intros m0 _ _. rewrite Hs. exact HE.
+    + injection E as <- <-. exact HE.
+    + injection E as <- <-. exact HE.
+    + injection E as <- <-. exact HE.
+    + injection E as <- <-. destruct ((c_mode c =? 1) || (c_mode c =? 2)); cbn; [exact I|exact HE].
 Qed.
 
-Lemma run_final c : cfg_ok c -> forall evs st w m,
-  winv c st w m -> winvE c st w -> wf_evs c st evs ->
+Lemma run_final c : cfg_ok c -> forall evs st n w m,
+  winv c st n w m -> winvE c st w -> wf_evs c st n evs ->
   winvE c (final_phase c st evs) (final_world c w evs).
 Proof.
-  intros Hc. induction evs as [|e t IH]; intros st w m HW HE Hwf; [exact HE|].
+  intros Hc. induction evs as [|e t IH]; intros st n w m HW HE Hwf; [exact HE|].
   apply wf_evs_cons in Hwf. destruct Hwf as [Hh Ht].
   cbn [final_world final_phase]. destruct (step c w e) as [mx o] eqn:E.
-  destruct (step_ok c st w m e mx o Hc HW Hh E) as (m1 & _ & B).
+  destruct (step_ok c st n w m e mx o Hc HW Hh E) as (m1 & _ & B).
   eapply IH; [exact B| |exact Ht].
   eapply stepE_ok; eauto.
 Qed.
@@ -122,26 +134,26 @@ Qed.
 Lemma final_phase_app c evs : forall st e, final_phase c st (evs ++ [e]) = next_phase c (final_phase c st evs) e.
 Proof. induction evs as [|x t IH]; intros st e; cbn; [reflexivity|apply IH]. Qed.
 
-Lemma final_clean_fs c : cfg_ok c -> forall evs st w m,
-  winv c st w m -> wf_evs c st evs -> final_phase c st evs = Clean -> w_fs (final_world c w evs) = [].
+Lemma final_clean_fs c : cfg_ok c -> forall evs st n w m,
+  winv c st n w m -> wf_evs c st n evs -> final_phase c st evs = Clean -> w_fs (final_world c w evs) = [].
 Proof.
-  intros Hc. induction evs as [|e t IH]; intros st w m HW Hwf Hf.
+  intros Hc. induction evs as [|e t IH]; intros st n w m HW Hwf Hf.
   - cbn in Hf. subst st. destruct HW as (_ & Hs & _). exact Hs.
   - apply wf_evs_cons in Hwf. destruct Hwf as [Hh Ht]. cbn [final_world final_phase] in *.
     destruct (step c w e) as [mx o] eqn:E.
-    destruct (step_ok c st w m e mx o Hc HW Hh E) as (m1 & _ & B). eapply IH; eauto.
+    destruct (step_ok c st n w m e mx o Hc HW Hh E) as (m1 & _ & B). eapply IH; eauto.
 Qed.
 
 Theorem final_live_ended c evs :
-  cfg_ok c -> wf_evs c Clean (evs ++ [EvDispose]) ->
+  cfg_ok c -> wf_evs c Clean 0 (evs ++ [EvDispose]) ->
   ended c (apply_all [] (run c (evs ++ [EvDispose]))).
 Proof.
   intros Hc Hwf.
-  assert (HW : winv c Clean world0 (new_mux c)) by (cbn; auto).
-  pose proof (run_final c Hc _ Clean world0 (new_mux c) HW I Hwf) as HE.
+  assert (HW : winv c Clean 0 world0 (new_mux c)) by (cbn; repeat split; lia).
+  pose proof (run_final c Hc _ Clean 0 world0 (new_mux c) HW I Hwf) as HE.
   unfold run. change [] with (w_fs world0) at 1. rewrite <- final_world_fs.
   destruct (final_phase c Clean (evs ++ [EvDispose])) as [|r|] eqn:Ep.
-  - rewrite (final_clean_fs c Hc _ Clean world0 (new_mux c) HW Hwf Ep). intros f Hf. discriminate.
+  - rewrite (final_clean_fs c Hc _ Clean 0 world0 (new_mux c) HW Hwf Ep). intros f Hf. discriminate.
   - exfalso. rewrite final_phase_app in Ep. destruct (final_phase c Clean evs); cbn in Ep; discriminate.
   - exact HE.
 Qed.
